@@ -22,6 +22,7 @@ int ds_self(void);
 int ds_scen_index(void);			/* scenario thread number (spawn order, main = 0); -1 for library-created threads */
 void ds_op_begin(int i);			/* current thread starts program operation i */
 void ds_yield(void);				/* spin hint from scenario code */
+void ds_bulk(int on);				/* run a long non-blocking stretch as one scheduling step */
 
 /* bookkeeping (never a scheduling point, never buffered) */
 unsigned long ds_now(void);
